@@ -142,6 +142,12 @@ void runTransform(XalanTransformer& t, const Msg& spec, Msg& resp, const std::st
 
     MemResolver resolver;
     resolver.load(spec);
+    if (srcform == "file" || xslform == "file" || xslform == "pi")
+    {
+        // the file forms resolve imports / document() relative to real files
+        for (std::map<std::string, std::string>::const_iterator i = resolver.res.begin(); i != resolver.res.end(); ++i)
+            writeFile(dir + "/" + i->first, i->second);
+    }
     EntityResolver* const oldResolver = t.getEntityResolver();
     t.setEntityResolver(&resolver);
 
@@ -150,7 +156,6 @@ void runTransform(XalanTransformer& t, const Msg& spec, Msg& resp, const std::st
     std::unique_ptr<XSLTInputSource> srcInput;
     const XalanParsedSource* parsed = 0;       // owned by the transformer
     bool parsedOwned = false;
-    std::unique_ptr<XalanParsedSource> wrapper;  // owned here
     XalanDocumentBuilder* builder = 0;
     // support objects for the wrapper forms must outlive the transformation
     std::unique_ptr<xercesc::XercesDOMParser> xparser;
@@ -158,6 +163,7 @@ void runTransform(XalanTransformer& t, const Msg& spec, Msg& resp, const std::st
     std::unique_ptr<XercesDOMSupport> xsupport;
     std::unique_ptr<XalanSourceTreeDOMSupport> ssupport;
     std::unique_ptr<XalanSourceTreeParserLiaison> sliaison;
+    std::unique_ptr<XalanParsedSource> wrapper;  // owned here; declared last so that it is destroyed before the support objects it refers to
     int rc = 0;
     std::string phase = "source";
 
